@@ -9,8 +9,8 @@ CHECKS = {
    text="Lean theorems: find_punctuator model returns the longest enabled prefix (over the regenerated punctuator table); whitespace insertion never changes the token list of the specification lexer (generic theorem + code/directive instances); the fusion guard of space_text() is complete for word/number/punctuator pairs outside an explicit gap list, each gap a proved witness; the output machine emits the chunk texts once, in order (render_vis), every CR/LF is a whole terminator; character-level pipeline under monitored hypotheses. Tie: T-punct/T-chars regenerated each run, findPunct vs find_punctuator exhaustively (thorough), forceSpace vs PCF_FORCE_SPACE, hook-trace replay through Render. Monitors H-loss/H-text on the chunk dumps of every run. Oracle: input and output re-lexed by the independent specification lexer (C family) or uncrustify's own tokenizer (other languages)",
    note="trusted: Lean kernel; specification lexer and models validated by correspondence/corpus quietness; H-loss/H-text are monitored, not proved for the unmodelled passes; fusion-guard gaps are genuine defects listed in known_findings.json",
    technique="Lean 4 proof over hand-written models + regenerated tables + hook correspondence + monitors + independent re-lexing oracle"),
- "C06": dict(level="exploration", design="6/C06",
-   text="Proved (Lean, over a table regenerated from the source each run): every exit()/main-return status in the sources is a documented status; the newline loop runs at most four times. Everything else the property says - no signal, no memory-safety/UB fault, bounded time, nothing on stdout when refused, a diagnostic on stderr - cannot be exhibited by an executable model and is EXPLORED: mutated corpus inputs (truncations, bracket/token edits, unterminated constructs, byte flips, random bytes, foreign language) in all nine languages under their test configs with a timeout; quick = fixed universe + seed-dependent part on the release build, thorough = seed-dependent on the ASan+UBSan build. Failures are identified by call site (gdb: pass + innermost function) for the known-findings list",
+ "C06": dict(level="proof", design="6/C06",
+   text="PARTIAL. Proved (Lean, over a table regenerated from the source each run): every exit()/main-return status in the sources is a documented status; the newline loop runs at most four times. Everything else the property says - no signal, no memory-safety/UB fault, bounded time, nothing on stdout when refused, a diagnostic on stderr - cannot be exhibited by an executable model and is EXPLORED: mutated corpus inputs (truncations, bracket/token edits, unterminated constructs, byte flips, random bytes, foreign language) in all nine languages under their test configs with a timeout; quick = fixed universe + seed-dependent part on the release build, thorough = seed-dependent on the ASan+UBSan build. Failures are identified by call site (gdb: pass + innermost function) for the known-findings list",
    note="exploration, not proof, for memory safety / UB / hangs (DESIGN.md 6/C06, 10); trusted: T-exit translator, timeout 20 s, gdb signatures; known defects of the unchanged tree listed by call site in known_findings.json",
    technique="Lean 4 proof of the status discipline over a regenerated table; mutation-based exploration with sanitizers for the rest"),
  "C07": dict(level="proof", design="6/C07",
